@@ -466,6 +466,49 @@ def r7(ctx):
                  what='obtain_counts: some count commands are never handed to a worker')
 
 
+MUTATORS = {'pop', 'popitem', 'update', 'clear', 'setdefault', 'append', 'extend', 'remove', 'insert', 'sort', 'reverse', 'add', 'discard', '__setitem__', '__delitem__'}
+
+
+@rule('C12', 'C12-R8', 'a job leaves its command untouched: generate_commands puts the same kwargs / alt_spans / key_tags objects into every command, so a job function that '
+                       'pops from or writes to one of them changes what the jobs after it in the same process count (the matrix then depends on the schedule)')
+def r8(ctx):
+    g = ctx.fn(BINCOUNTS, 'generate_commands')
+    params = {a.arg for a in g.args.args + g.args.kwonlyargs}
+    ys = [y for y in ast.walk(g) if isinstance(y, ast.Yield) and isinstance(y.value, ast.Tuple)]
+    ctx.need('C12-R8', len(ys), 1, 'command tuples yielded by generate_commands')
+    shared_pos = set()
+    for y in ys:
+        for k, e in enumerate(y.value.elts):
+            if isinstance(e, ast.Name) and e.id in params and e.id in ('kwargs', 'alt_spans', 'key_tags', 'blacklist'):
+                shared_pos.add(k - len(y.value.elts))      # position counted from the end: starred job coordinates in front do not shift it
+    n = 0
+    for q in ('count_fragments_binned', 'count_methylation_binned'):
+        f = ctx.fn(BINCOUNTS, q)
+        cmd = f.args.args[0].arg
+        unpack = [s for s in f.body if isinstance(s, ast.Assign) and isinstance(s.value, ast.Name) and s.value.id == cmd and isinstance(s.targets[0], ast.Tuple)]
+        if not unpack:
+            continue
+        elts = unpack[0].targets[0].elts
+        names = {elts[k].id for k in shared_pos if -k <= len(elts) and isinstance(elts[k], ast.Name)}
+        n += 1
+        hits = []
+        for x in walk_no_nested(f):
+            if isinstance(x, ast.Call) and isinstance(x.func, ast.Attribute) and x.func.attr in MUTATORS and isinstance(x.func.value, ast.Name) and x.func.value.id in names:
+                hits.append((x, f'{x.func.value.id}.{x.func.attr}(...)'))
+            if isinstance(x, (ast.Assign, ast.AugAssign, ast.Delete)):
+                for t in (x.targets if not isinstance(x, ast.AugAssign) else [x.target]):
+                    if isinstance(t, ast.Subscript) and isinstance(t.value, ast.Name) and t.value.id in names:
+                        hits.append((x, src(x)[:50]))
+        # rebinding the local first (kwargs = dict(kwargs)) makes the later writes private
+        rebound = {t.id for s in f.body if isinstance(s, ast.Assign) and s is not unpack[0] for t in s.targets if isinstance(t, ast.Name)}     # unconditional rebinding only
+        hits = [(x, d) for x, d in hits if not ((x.func.value.id if isinstance(x, ast.Call) else None) in rebound)]
+        ctx.emit('C12-R8', not hits, BINCOUNTS, hits[0][0] if hits else f, f'{q} only reads the shared command members {sorted(names)}' if not hits else
+                 f'{q} changes a command member shared by all jobs: `{hits[0][1]}` - the next job of the same process sees the changed object',
+                 key=f'{q}:command-read-only', witness={'jobs in one process': 2, 'first job': hits[0][1], 'second job': 'reads the member after the change'} if hits else None,
+                 what=f'{q} mutates the command it was given')
+    ctx.need('C12-R8', n, 1, 'job functions unpacking a command')
+
+
 META = {
     'text': ('Decides: the per-job ownership test is exactly the half-open [start, end) on every ordering; job boundaries are multiples of the bin '
              'size (start 0, step bin_size*bins_per_job, end = start + step) so the non-additive merge cannot lose counts; the bin of a read is '
